@@ -108,11 +108,17 @@ def c17_1(ctx: Ctx) -> RuleResult:
                             shape is not None and shape[0] != "tuple" and narg[0] == "binop" and narg[1] == "*"
                             and {("item", shape, 0), ("item", shape, 1)} == {narg[2], narg[3]}
                         )
-                        order_kw = any(k == "order" and v != ("const", "C") for o, node in _chain(ret) if o == "reshape" for k, v in node[3])
+                        # any step whose result depends on the memory layout of the point matrix (order="K"/"A"/"F" in
+                        # reshape / ravel / flatten / array ...): SciPy engines may return Fortran-ordered arrays
+                        order_kw = any(
+                            (k == "order" and v != ("const", "C")) for _o, node in _chain(ret) if node[0] == "call" for k, v in node[3]
+                        ) or any(
+                            node[0] == "call" and node[1][0] == "attr" and node[1][2] in ("ravel", "flatten") and node[2] and node[2][0][0] == "const" and node[2][0][1] in ("F", "K", "A")
+                            for _o, node in _chain(ret))
                         if not sh_ok:
                             ok, why = False, f"reshape target `{show(shape, 60) if shape else '?'}` is not (r, p, d) with n = r*p rows"
                         elif order_kw:
-                            ok, why = False, "reshape uses a non-C order: rows are not kept together"
+                            ok, why = False, "a reshape / ravel / flatten on the way uses a non-C (memory-layout dependent) order: rows (points) are not kept together for Fortran-ordered engine output"
                     res.add(m, call, "from engine.random(r*p) to the result only value-preserving wrappers, scale() and reshape((r, p, d)) are applied", ok, why,
                             construct=f"{c.name}.{m.name}: QMC random -> reshape")
                 elif fn[0] == "attr" and fn[2] == "rvs":
@@ -360,6 +366,18 @@ def c17_3(ctx: Ctx) -> RuleResult:
                     ok = const_of(lo) == -1.0 and const_of(hi) == 1.0
                     res.add(m, cl, "QMC points are scaled from [0, 1) to [-1, 1]", ok, "" if ok else f"scale bounds are {show(lo, 30) if lo else '?'} .. {show(hi, 30) if hi else '?'}",
                             construct=f"{c.name}: qmc scale bounds")
+    # the defaults stay the defaults: no sampler function writes the module-level table they come from
+    from .c16 import shared_state_writes
+
+    mods = {c.module.name for c in sampler_impls(ctx)}
+    writes = [(f_, n_, why) for f_, n_, why in shared_state_writes(ctx) if f_.module.name in mods]
+    for f_, n_, why in writes:
+        res.add(f_, n_, "the default options are never modified (each sampler starts from the same defaults)", False,
+                why + ": options given to one sampler become the defaults of every later sampler of the method, which then leaves [-1, 1]",
+                construct=f"{f_.name}: defaults table written")
+    if not writes:
+        res.add(None, None, "the default options are never modified (each sampler starts from the same defaults)", True,
+                construct="defaults table not written", where="src/ropt/plugins/sampler", fname="<sampler modules>")
     res.floor = 4
     return res
 
